@@ -33,7 +33,10 @@ class W:
             q = ir.Node("", "Op", [p.outputs[0]], name="q")
             self.nodes["p"], self.nodes["q"] = p, q
             self.body = ir.Graph([], [q.outputs[0]], nodes=[p, q], name="body")
-            ifn = ir.Node("", "If", [self.x], [ir.AttrGraph("then_branch", self.body)], name="IF")
+            # reference attributes (legal in function bodies) hold no graph: one of a scalar type and one of GRAPH
+            # type, both listed BEFORE the attribute that does carry the body
+            ifn = ir.Node("", "If", [self.x], [ir.RefAttr("count", "outer_count", ir.AttributeType.INT), ir.RefAttr("else_branch", "outer_else", ir.AttributeType.GRAPH),
+                                               ir.AttrGraph("then_branch", self.body)], name="IF")
             self.nodes["IF"] = ifn
             init.insert(1 if k >= 1 else 0, ifn)
         # a dependency that makes sort() really reorder: n0 consumes the last initial plain node
